@@ -33,13 +33,18 @@ DELIVERABLES, written into {WT}/{ID}/seeded/ :
  - meta.json : {{"property": "{ID}", "summary": "...", "needs_to_manifest": "...", "files_changed": [...], "commands_run": [...], "side_findings_unchanged_code": [...]}}
    side_findings_unchanged_code: if, while reading, you notice that the UNCHANGED code already violates this property for some input, history or fault, list each with a minimal reproduction (a few lines of Python); otherwise an empty list. Do not spend more than a small part of your effort on this.
 Leave the change applied in the worktree when you finish. In your final answer give a 5-line summary: what you changed, why the tests still pass, what is needed to see the violation.'''
+EXTRA = """ADDITIONAL GUIDANCE FOR THIS ROUND: many one-site slips have been tried already. Prefer a change built from TWO cooperating edits that each look harmless alone, or one whose manifestation needs a non-default configuration (an option of the public API, an environment condition such as the interpreter's optimisation level, warning filters, resource limits or the current directory), an injected fault or crash at a particular point, a particular thread interleaving, an unusual but legal shape of input (memory layout, iterator kinds, subclasses, reference attributes), or state left behind by an EARLIER call in the same process. Pick a clause of the property statement that the earlier changes listed above leave untouched, and a file among the anchors that they have used least.
+
+"""
+if N >= 8:
+    BASE = BASE.replace("DELIVERABLES, written into", EXTRA + "DELIVERABLES, written into", 1)
 for pid in claimed:
     wt = f"{base_dir}/{pid}"
     if not os.path.isdir(wt):
         subprocess.run(["git", "-C", "/repo", "worktree", "add", "--detach", wt, "HEAD", "-q"], check=True)
     os.makedirs(f"{wt}/seeded", exist_ok=True)
     prev = []
-    for r, suffix in enumerate(["", "-r2", "-r3", "-r4", "-r5", "-r6", "-r7", "-r8", "-r9", "-r10", "-r11"]):
+    for r, suffix in enumerate(["", "-r2", "-r3", "-r4", "-r5", "-r6", "-r7", "-r8", "-r9", "-r10", "-r11", "-r12"]):
         f = f"/verif/seeded/{pid}{suffix}/agent_meta.json"
         if os.path.exists(f):
             prev.append(f' ({chr(97 + len(prev))}) "' + str(json.load(open(f)).get("summary", "")).replace('"', "'")[:450] + '"')
